@@ -79,7 +79,7 @@ def canon_error(e, root):
     return s[:600]
 
 
-def main():
+def main(argv=None):
     ap = argparse.ArgumentParser()
     ap.add_argument("path")
     ap.add_argument("-D", action="append", default=[], dest="defines")
@@ -94,7 +94,7 @@ def main():
     ap.add_argument("--memo-tables", action="store_true")
     ap.add_argument("--query", action="append", default=[])
     ap.add_argument("--max-nodes", type=int, default=6000)
-    args = ap.parse_args()
+    args = ap.parse_args(argv)
     os.chdir(args.path)
     root = os.getcwd()
     pats = list(args.delete) + ([".bob-*"] if args.no_cache else [])
@@ -109,7 +109,9 @@ def main():
     from bob.input import RecipeSet
     from bob.cmds.helpers import processDefines
     from bob.errors import BobError
-    out = {"hooks": []}
+    import time
+    T0 = time.time()
+    out = {"hooks": [], "timing": {}}
     if args.pkgck:
         if "pkgck" not in bob.DEBUG:
             print(json.dumps({"harness_error": "bob.DEBUG has no 'pkgck' switch any more"}))
@@ -138,6 +140,7 @@ def main():
         recipes.setConfigFiles(args.configs)
         recipes.parse(processDefines(args.defines))
         out["rootEnv"] = dict(recipes.getRootEnv().inspect())
+        out["timing"]["parse"] = round(time.time() - T0, 3)
         if args.no_merge:
             n = 0
             for name in list(recipes.getRecipes()):
@@ -160,6 +163,7 @@ def main():
         if args.dev:
             persister.prime(packages)
         rootPkg = packages.getRootPackage()
+        out["timing"]["generate"] = round(time.time() - T0, 3)
     except BobError as e:
         print(json.dumps({"error": "BobError", "slogan": canon_error(e, root)}))
         return 0
@@ -207,6 +211,7 @@ def main():
         print(json.dumps({"error": "Crash", "slogan": type(e).__name__ + ": " + canon_error(e, root), "phase": "walk"}))
         return 0
     out["packages"] = pk
+    out["timing"]["walk"] = round(time.time() - T0, 3)
     if args.query:
         out["queries"] = {}
         for q in args.query:
@@ -232,9 +237,53 @@ def main():
             memo[name] = ents
         out["memo"] = memo
     out["cachefiles"] = sorted(glob.glob(".bob-*"))
+    out["timing"]["total"] = round(time.time() - T0, 3)
     print(json.dumps(out))
     return 0
 
 
+def serve():
+    """fork server: the interpreter has imported bob once; every request (one JSON
+    line with the argument vector) is answered by a forked child, i.e. by a fresh
+    copy of a process that has parsed nothing yet."""
+    import bob, bob.input, bob.builder, bob.cmds.build.state, bob.cmds.helpers, bob.errors, bob.pathspec  # noqa
+    import sqlite3, pickle  # noqa
+    inp = sys.stdin
+    real_out = os.fdopen(os.dup(1), "w")
+    while True:
+        line = inp.readline()
+        if not line:
+            return 0
+        req = json.loads(line)
+        r, w = os.pipe()
+        sys.stdout.flush()
+        pid = os.fork()
+        if pid == 0:
+            try:
+                os.close(r)
+                os.dup2(w, 1)
+                sys.stdout = os.fdopen(w, "w")
+                try:
+                    main(req["argv"])
+                except SystemExit:
+                    pass
+                except BaseException as e:      # noqa
+                    import traceback
+                    print(json.dumps({"error": "dump-crashed", "slogan": traceback.format_exc()[-1500:]}))
+                sys.stdout.flush()
+            finally:
+                os._exit(0)
+        os.close(w)
+        chunks = []
+        with os.fdopen(r, "r") as fh:
+            chunks.append(fh.read())
+        os.waitpid(pid, 0)
+        data = "".join(chunks).strip().split("\n")[-1] if chunks else ""
+        real_out.write((data or json.dumps({"error": "dump-crashed", "slogan": "no output"})) + "\n")
+        real_out.flush()
+
+
 if __name__ == "__main__":
+    if len(sys.argv) > 1 and sys.argv[1] == "--server":
+        sys.exit(serve())
     sys.exit(main())
